@@ -3,7 +3,7 @@
     Definitions only (no proofs). Paths are Coq [string]s (bytes); POSIX separator "/". *)
 From Coq Require Import String Ascii List Bool Arith.
 Import ListNotations.
-Open Scope string_scope.
+Local Open Scope string_scope.
 
 (** * String helpers *)
 
